@@ -1532,7 +1532,7 @@ class Staircase(Pbox):
             xx0 = self - x0
             a = frechet_pbox_mul(xx0, other)
             b = x0 * other
-            return frechet_pbox_mul(a, b)
+            return classic_frechet_pbox(a, b, operator.add)
         if other.straddles_zero():
             y0 = other.lo
             yy0 = other - y0
